@@ -245,7 +245,8 @@ func c12Run(c *Ctx, tp *tape.Tape, extra map[string]any) *Failure {
 				failure = fail("loser-no-diagnostic|"+p.name, fmt.Sprintf("p%d lost the lock but exit=%d stderr=%q", p.id, code, firstLine(string(errOut))))
 			}
 			if after := snapshotDirs(w.Dir, nodes); failure == nil && after != p.snap {
-				failure = fail("loser-left-trace|"+p.name, fmt.Sprintf("p%d (%s) lost the lock but changed status/history/log/device", p.id, p.name))
+				failure = fail("loser-left-trace|"+p.name, fmt.Sprintf("p%d (%s) lost the lock but changed status/history/log/device: %s",
+					p.id, p.name, firstDiff(strings.Split(p.snap, "\n"), strings.Split(after, "\n"))))
 			}
 		}
 		if p.acquired {
